@@ -40,7 +40,8 @@ type HTTPS struct {
 	IPv4Hint      []netip.Addr
 	IPv6Hint      []netip.Addr
 	ECH           []byte
-	ECHEmpty      bool // the ech parameter is present with a value of zero bytes (ECH must be empty)
+	TargetWire    string // when set: the spelling of Target put on the wire (same name, other letter case)
+	ECHEmpty      bool   // the ech parameter is present with a value of zero bytes (ECH must be empty)
 }
 
 // RR is one resource record. Owner and Target are lower-case without trailing dot.
@@ -272,7 +273,11 @@ func wireName(name string) ([]byte, error) {
 // RData encodes the record per RFC 9460 section 2.2: priority, uncompressed
 // target name, SvcParams in strictly increasing key order.
 func (h *HTTPS) RData() ([]byte, error) {
-	t, err := wireName(h.Target)
+	tn := h.Target
+	if h.TargetWire != "" {
+		tn = h.TargetWire
+	}
+	t, err := wireName(tn)
 	if err != nil {
 		return nil, err
 	}
